@@ -12,6 +12,8 @@ from vlib import w as W
 from vlib.core import Ob
 
 PROPERTY_ID = "C01"
+ENGINE = 'E1 CrossHair 0.0.110 (z3) on the real code'
+TECHNIQUE = "CrossHair symbolic execution of the real SeqView / SliceRecord / Sequence code: one inductive slicing step from an arbitrary state satisfying the representation invariant (all integers symbolic and unbounded), z3 deciding every path; 'Confirmed over all paths' is the verdict; counterexamples replayed on the public API"
 CLAIM = (
     "SeqView / SliceRecordABC (old, new, SeqDataView): constructor and one slicing step from ANY invariant-satisfying state equal "
     "Python slice semantics index-by-index (so chains of any depth do), coordinates name the displayed segment; read-only Sequence "
